@@ -3,6 +3,9 @@ use std::fs;
 use std::path::{Path, PathBuf};
 
 use ast::ast;
+use diagnostics::{Severity, Stage};
+use parser::error::format_parser_diagnostics;
+use parser::{Diagnostic, Diagnostics};
 
 use crate::hir::SourceFileAst;
 use crate::pipeline::compile_error;
@@ -73,6 +76,25 @@ fn read_gom_sources(dir: &Path) -> Result<Vec<PathBuf>, CompilationError> {
     Ok(files)
 }
 
+fn locate_in_file(err: CompilationError, path: &Path, src: &str) -> CompilationError {
+    match err {
+        CompilationError::Parser { diagnostics } => {
+            let mut located = Diagnostics::new();
+            for message in format_parser_diagnostics(&diagnostics, src) {
+                located.push(Diagnostic::new(
+                    Stage::Parser,
+                    Severity::Error,
+                    format!("{}: {}", path.display(), message),
+                ));
+            }
+            CompilationError::Parser {
+                diagnostics: located,
+            }
+        }
+        other => other,
+    }
+}
+
 fn collect_imports(files: &[SourceFileAst]) -> HashSet<String> {
     files
         .iter()
@@ -106,7 +128,8 @@ fn load_package(
         }
         let src = fs::read_to_string(&path)
             .map_err(|err| compile_error(format!("failed to read {}: {}", path.display(), err)))?;
-        let ast = parse_ast_file(&path, &src)?;
+        let ast =
+            parse_ast_file(&path, &src).map_err(|err| locate_in_file(err, &path, &src))?;
         if let Some(existing) = &package_name {
             if &ast.package.0 != existing {
                 return Err(compile_error(format!(
